@@ -121,6 +121,7 @@ func c20Load() []c20Doc {
 	addText("shape/validity-until-only", []byte(`{"version":1,"subject":"CN=Shape, C=DE","keyAlgorithm":"P-224","validity":{"until":"2040-01-01"}}`))
 	addText("shape/validity-from-only", []byte(`{"version":1,"subject":"CN=Shape, C=DE","keyAlgorithm":"P-224","validity":{"from":"2020-01-01"}}`))
 	addText("shape/profile-validity-from-only", []byte(`{"version":1,"name":"shape-profile","validity":{"from":"2020-01-01"}}`))
+	addText("shape/admission-ip-authorities", []byte(`{"version":1,"subject":"CN=Shape, C=DE","keyAlgorithm":"P-224","extensions":[{"admission":{"content":{"admissionAuthority":{"type":"ip","name":"10.0.0.1"},"admissions":[{"admissionAuthority":{"type":"ip","name":"10.0.0.2"},"namingAuthority":{"oid":"1.2.3.4","url":"http://n.example","text":"n"},"professionInfos":[{"namingAuthority":{"text":"p"},"professionItems":["Arzt"],"professionOids":["1.2.276.0.76.4.31","1.2.276.0.76.4.30"],"registrationNumber":"1-2","addProfessionInfo":"!binary:AQID"}]}]}}},{"subjectAlternativeName":{"content":[{"type":"ip","name":"10.0.0.3"},{"type":"mail","name":"a@b.example"},{"type":"dns","name":"c.example"}]}}]}`))
 	addText("shape/profile-validity-from-duration", []byte(`{"version":1,"name":"shape-profile","validity":{"from":"2020-01-01","duration":"5y"}}`))
 	addText("shape/profile-validity-from-until", []byte(`{"version":1,"name":"shape-profile","validity":{"from":"2020-01-01","until":"2040-01-01"}}`))
 	c20Docs = out
@@ -249,6 +250,7 @@ var c20Hostile = []string{
 	`"` + strings.Repeat("A", 100000) + `"`, `"\u0000"`, `"😂"`, `"CN=x,CN="`, `"256.1.1.300"`, `"1.2.3"`,
 	`null`, `[]`, `{}`, `true`, `{"a":{"b":[1]}}`, `[[]]`, `["x"]`, `"9223372036854772807y"`, `"10.0.0.256"`, `"10.0.0.-1"`, `"18446744073709551616d"`, `"9223372036854775807m"`,
 	// subject strings around the '#hex' value form and malformed pairs
+	`"10.0.0.1.7"`, `"1.2.3.4.5.6.7.8.9.10.11.12.13.14.15.16.17"`, `"..."`, `"1..2.3"`,
 	`"CN=#"`, `"CN=#0"`, `"CN=#13"`, `"O=#1303616263, CN=#"`, `"=x"`, `"CN=a=b"`, `"CN=#zz"`,
 }
 
@@ -470,6 +472,12 @@ func c20Enumerate(tier string, yield func(any)) {
 	for v := 0; v < len(c20HashVariants()); v++ {
 		yield(&c20Case{Kind: "hashline", A: v})
 	}
+	// the read of one file of a settled directory breaks off with an I/O error after N bytes
+	for doc := 0; doc < 2; doc++ {
+		for from := 0; from < 12000; from += 400 {
+			yield(&c20Case{Kind: "readfault", Doc: doc, From: from, To: from + 400})
+		}
+	}
 }
 
 // ---------------------------------------------------------------- execution
@@ -648,7 +656,52 @@ func c20Exec(x *engine.Ctx, cc any) {
 		c20ArtState(x, c)
 	case "hashline":
 		c20HashLine(x, c)
+	case "readfault":
+		c20ReadFault(x, c)
 	}
+}
+
+// c20ReadFault: the directory of a corpus document, generated once; then every file in turn cannot be
+// read beyond offset N (N in steps of 5 through [From,To)): open, plan and sign must not panic.
+func c20ReadFault(x *engine.Ctx, c *c20Case) {
+	docs := c20Load()
+	if c.Doc >= len(docs) {
+		return
+	}
+	d := docs[c.Doc]
+	files := c20World(d, d.Text)
+	w := simfs.New(simfs.TickPerWrite)
+	var names []string
+	for p := range files {
+		names = append(names, p)
+	}
+	sort.Strings(names)
+	for _, p := range names {
+		w.Put(p, files[p])
+	}
+	if r := drive.Run(w, drive.Default, nil); r.Panic != "" {
+		return // the corpus case reports that
+	}
+	var n int64
+	for _, p := range w.Paths() {
+		size := len(w.Files[p].Data)
+		for off := c.From; off < c.To && off <= size; off += 5 {
+			w2 := w.Clone()
+			w2.ReadFaults = map[string]int{p: off}
+			for _, st := range []int{9, 16} {
+				res := drive.Run(w2, dbStrat(st), nil)
+				x.Transition(1)
+				n++
+				if res.Panic != "" {
+					x.ViolationCase(c20PanicClass(res.PanicSite, res.Panic), fmt.Sprintf("document %s: reading %s breaks off after %d of %d bytes, strategy %05b: panic %s", d.Name, p, off, size, st, short(res.Panic, 300)), &c20Case{Kind: "readfault", Doc: c.Doc, From: off, To: off + 1})
+					return
+				}
+			}
+		}
+	}
+	x.Eval(n)
+	x.NontrivialN(n)
+	x.Outcome("read faults survived")
 }
 
 // c20IPSlot: the slot is the name of a subjectAlternativeName entry of type ip.
@@ -971,7 +1024,7 @@ func init() {
 	register(&engine.Check{
 		ID:          "C20",
 		Level:       "exploration",
-		Rule:        "deviation-bounded enumeration from a valid corpus (the two *-example.yaml documents, examples/, the certificate/extension/profile schema test corpora read from /repo, and artifacts gopki produces): (1) every scalar and container slot of every corpus document replaced by each of 41 hostile values (empty, blank, 0, -1, 2^31, 2^63, 10^30, 1e400, 1.5, OIDs with over-long arcs / wrong first arcs / single arc, impossible dates, huge durations, malformed base64, wrong types, 100 kB string, NUL, emoji, null, [], {}, nested containers) and by removal of the slot, the document placed as root with a child (or as profile of two entities) and run default; default; -a on a fresh directory, and edited into the directory already generated from the unmodified document and run default; -e -o -c (existing certificates, keys and hash lines meet the hostile text); seven added documents give the validity shapes from+duration, from+until, from-only, until-only (certificate and profile) that the repository's documents lack; thorough adds two deviations for all pairs among OID-, date- and raw-valued slots of the example documents; (2) byte level: every prefix and every offset x 8 bytes of the configuration texts through ParseConfig (quick: documents <=3 kB), every cut and offset x 7 bytes of generated PEM files, every offset x 6 byte values of the DER inside each PEM block re-armoured, through ReadPem and whole runs; 12 placements of the #HASH line x 32 strategies; (3) root and sub artifact each in 10 states (no file, empty, hash only, cert only, key only, CSR only, cert+key, cert+CSR, key+CSR, garbage) x 32 strategies followed by a default run, and the three-tier extension. Oracle: no panic / fatal error; an over-long OID arc in an OID-valued slot must make ParseConfig return an error. non-trivial = distinct mutated inputs executed",
+		Rule:        "deviation-bounded enumeration from a valid corpus (the two *-example.yaml documents, examples/, the certificate/extension/profile schema test corpora read from /repo, and artifacts gopki produces): (1) every scalar and container slot of every corpus document replaced by each of 41 hostile values (empty, blank, 0, -1, 2^31, 2^63, 10^30, 1e400, 1.5, OIDs with over-long arcs / wrong first arcs / single arc, impossible dates, huge durations, malformed base64, wrong types, 100 kB string, NUL, emoji, null, [], {}, nested containers) and by removal of the slot, the document placed as root with a child (or as profile of two entities) and run default; default; -a on a fresh directory, and edited into the directory already generated from the unmodified document and run default; -e -o -c (existing certificates, keys and hash lines meet the hostile text); seven added documents give the validity shapes from+duration, from+until, from-only, until-only (certificate and profile) that the repository's documents lack; thorough adds two deviations for all pairs among OID-, date- and raw-valued slots of the example documents; (1b) a settled directory in which the read of each file in turn breaks off with an I/O error after every 5th offset; (2) byte level: every prefix and every offset x 8 bytes of the configuration texts through ParseConfig (quick: documents <=3 kB), every cut and offset x 7 bytes of generated PEM files, every offset x 6 byte values of the DER inside each PEM block re-armoured, through ReadPem and whole runs; 12 placements of the #HASH line x 32 strategies; (3) root and sub artifact each in 10 states (no file, empty, hash only, cert only, key only, CSR only, cert+key, cert+CSR, key+CSR, garbage) x 32 strategies followed by a default run, and the three-tier extension. Oracle: no panic / fatal error; an over-long OID arc in an OID-valued slot must make ParseConfig return an error. non-trivial = distinct mutated inputs executed",
 		Bound:       map[string]string{"deviations from the corpus": "1 (thorough: 2 for OID/date/raw slots)"},
 		Assumptions: []string{"'all byte strings' is unbounded; coverage-guided mutation is sampling and outside this technique: decided is exactly the deviation-bounded space", "fatal (unrecoverable) errors are attributed to the announced case"},
 		Budget:      budgets(quickBudget, thoroughBudget),
